@@ -367,10 +367,31 @@ def runPD (ins outs : List String) : Verdict :=
           .diff "an OFF record was rejected but processSegment did not panic (model of publish_data.go/process_data.go is stale)"
         else .ok (["pd"] ++ (if ws.any (fun (_, ts) => ts.any isRecRej) then ["full", "rejected-record"] else []))
 
+/-- `PUB` lines: the real `DataPublisher` (PublishData / Flush / SetPause / Remove*) with real writers on
+regular files; the file is read immediately after every Flush / SetPause / Remove* return.  Judged by the
+same oracle per writer: at each of those returns the file = header ++ whole records accepted so far. -/
+def runPUB (outs : List String) : Verdict :=
+  match outs with
+  | "PANIC" :: cls => .viol s!"C07:crash-publisher the real code crashed ({" ".intercalate cls})"
+  | "HANG" :: _ => .viol "C07:hang-publisher the real code did not return"
+  | _ =>
+    let p : P (List (String × List Tok)) := do
+      P.kw "D"
+      P.list (do let k ← P.tok; P.kw "T"; let ts ← P.list parseTok; pure (k, ts))
+    match P.run p outs with
+    | .error e => .bad e
+    | .ok ws =>
+      match ws.findSome? (fun (k, ts) => match chkToks OSt.init ts with | .error b => some (k, b) | .ok _ => none) with
+      | some (k, b) => .viol s!"C07:{badName b}-publisher ({k} file, DataPublisher.Flush/SetPause/Remove*) {badText b}"
+      | none =>
+        let nrec := (ws.map fun (_, ts) => (ts.filter fun t => match t with | .R _ true => true | _ => false).length).foldl max 0
+        .ok (["publisher"] ++ (if nrec > 0 then ["publisher-records"] else []))
+
 def runLine (ts : List String) : Verdict :=
   let (ins, outs) := splitOut ts
   match ins with
   | "PD" :: _ => runPD ins outs
+  | "PUB" :: _ => runPUB outs
   | _ =>
     match P.run parseHdr ins with
     | .error e => .bad e
